@@ -3614,3 +3614,53 @@ pub(crate) fn is_use_item(item: &ast::Item) -> bool {
 pub(crate) fn is_extern_crate(item: &ast::Item) -> bool {
     matches!(item.kind, ast::ItemKind::ExternCrate(..))
 }
+
+#[cfg(feature = "verif-hooks")]
+pub(crate) mod verif_local {
+    use super::*;
+
+    fn brace(b: u8) -> FnBraceStyle {
+        match b {
+            0 => FnBraceStyle::SameLine,
+            1 => FnBraceStyle::NextLine,
+            _ => FnBraceStyle::None,
+        }
+    }
+
+    /// `compute_budgets_for_params`; `brace`: 0 = `SameLine`, 1 = `NextLine`, 2 = `None`.
+    pub(crate) fn compute_budgets_for_params(
+        context: &RewriteContext<'_>,
+        result: &str,
+        indent: Indent,
+        ret_str_len: usize,
+        b: u8,
+        force_vertical_layout: bool,
+    ) -> (usize, usize, Indent) {
+        super::compute_budgets_for_params(
+            context,
+            result,
+            indent,
+            ret_str_len,
+            brace(b),
+            force_vertical_layout,
+        )
+    }
+
+    /// `newline_for_brace`, answer coded as above.
+    pub(crate) fn newline_for_brace(config: &Config, where_clause: &ast::WhereClause) -> u8 {
+        match super::newline_for_brace(config, where_clause) {
+            FnBraceStyle::SameLine => 0,
+            FnBraceStyle::NextLine => 1,
+            FnBraceStyle::None => 2,
+        }
+    }
+
+    /// `generics_shape_from_config`.
+    pub(crate) fn generics_shape_from_config(
+        config: &Config,
+        shape: Shape,
+        offset: usize,
+    ) -> Result<Shape, ExceedsMaxWidthError> {
+        super::generics_shape_from_config(config, shape, offset, DUMMY_SP)
+    }
+}
